@@ -24,7 +24,7 @@ theorem Step.and {σ α} {R₁ R₂ : Rel σ} {m : M σ α} (h1 : Step R₁ m) (
 theorem primsOK_and {P : Params} {h : Nat} {R₁ R₂ : Rel DB} (o1 : PrimsOK P h R₁) (o2 : PrimsOK P h R₂) :
     PrimsOK P h (R₁.and R₂) where
   addBal a t v := (o1.addBal a t v).and (o2.addBal a t v)
-  subBal a t v := (o1.subBal a t v).and (o2.subBal a t v)
+  subBal a t v ha := (o1.subBal a t v ha).and (o2.subBal a t v ha)
   insertRate a b := (o1.insertRate a b).and (o2.insertRate a b)
   insertHistBatch r := (o1.insertHistBatch r).and (o2.insertHistBatch r)
   insertHistTx r := (o1.insertHistTx r).and (o2.insertHistTx r)
@@ -54,7 +54,7 @@ theorem logKeep (s s' : DB) (e : s'.statusLog = s.statusLog) : logGrows.r s s' :
 
 theorem primsOK_logGrows (P : Params) (h : Nat) : PrimsOK P h logGrows where
   addBal _ _ _ := guarded_keep (·.statusLog) logKeep (fun _ => rfl)
-  subBal a t v := subBal_step_of P a t v
+  subBal a t v _ := subBal_step_of P a t v
     (guarded_keep (·.statusLog) logKeep (fun _ => rfl))
     (guarded_keep (·.statusLog) logKeep (fun _ => rfl))
   insertRate _ _ := guarded_keep (·.statusLog) logKeep (fun _ => rfl)
